@@ -11,7 +11,7 @@ for id in $ids; do
   t0=$(date +%s)
   ./check $prop > build/seeded/$id.log 2>&1; rc=$?
   t1=$(date +%s)
-  git -C /repo checkout -- .
+  git -C /repo checkout -- . 2>/dev/null || git -C /repo reset -q --hard HEAD
   v=$(grep -m1 '^VIOLATION' build/seeded/$id.log)
   why=$(grep -m1 '^# ' build/seeded/$id.log | cut -c1-150)
   echo "$id rc=$rc $((t1-t0))s $v :: $why"
